@@ -402,7 +402,7 @@ static void run_case(uint64_t idx, vr::Ctx& ctx)
     stack.push_back({});
     try
     {
-        while (!stack.empty() && ctx.case_violations < 4)
+        while (!stack.empty() && ctx.case_violations < 4 && !ctx.stopping())
         {
             auto prefix = stack.back();
             stack.pop_back();
@@ -442,6 +442,8 @@ static void run_case(uint64_t idx, vr::Ctx& ctx)
         ctx.violation("c09:harness:" + e.what.substr(0, 50), "{\"scenario\":" + vr::jstr(label) + "}");
         _exit(77);
     }
+    if (!stack.empty() && ctx.case_violations == 0)
+        ctx.count("incomplete_cases", 1); // deadline: the scenario's schedule tree was not finished
     ctx.count("executions", execs + shutdownExecs);
     ctx.count("shutdown_executions", shutdownExecs);
     ctx.count("transitions", steps);
